@@ -925,7 +925,8 @@ pub fn run_op<'c>(ctx: &'c Ctx<'c>, me: usize, st: &mut ActorState<'c>, opi: usi
                     }
                 }
                 // C07 allocation bound over the bytes the reader returned
-                let delivered: usize = reads.iter().map(|r| r.res.as_ref().map_or(0, |(b, _)| b.len())).sum();
+                // input size = what the reader delivered + the TZ value + the candidate paths built from it
+                let delivered: usize = reads.iter().map(|r| r.res.as_ref().map_or(0, |(b, _)| b.len())).sum::<usize>() + tzv.len() + reads.iter().map(|r| r.path.len()).sum::<usize>();
                 let bound = 4 * delivered + 4096 + 256 * reads.len();
                 if m.peak > bound as isize {
                     push_violation(armed, "C07.alloc_bound", "resolve", format!("resolving {tzv:?} peaked at {} bytes of heap for {delivered} delivered bytes (bound {bound})", m.peak));
